@@ -157,6 +157,10 @@ func c06Tree(t *core.Trace) []imgEntry {
 		}
 	}
 	if t.I("collide") == 1 {
+		// sibling directories that differ only behind a dot (a directory identifier has no extension)
+		for _, dn := range []string{"data.v1", "data.v2", "lib.so.1", "lib.so.2"} {
+			tree = append(tree, imgEntry{Path: dn, Dir: true}, mk(dn+"/inside.txt", int64(len(dn))+30))
+		}
 		d := dirs[r.Intn(len(dirs))]
 		for _, name := range isoCollide {
 			p := name
